@@ -46,6 +46,9 @@ import (
 type Config struct {
 	Actions              string // default: the repo default list
 	Placement            string // "binpack" (default) | "spread"
+	// GpuSpread: order the GPUs of a node with the gpuspread plugin instead of gpupack - what the
+	// operator deploys for placementStrategy.gpu = spread
+	GpuSpread bool
 	Consolidation        bool   // include consolidation action (default list has it; false removes it)
 	NoConsolidation      bool
 	ConsolidatingReclaim bool
@@ -71,6 +74,9 @@ func (c Config) Label() string {
 	parts := []string{}
 	if c.Placement != "" {
 		parts = append(parts, c.Placement)
+	}
+	if c.GpuSpread {
+		parts = append(parts, "gpuspread")
 	}
 	if c.NoConsolidation {
 		parts = append(parts, "nocons")
@@ -241,6 +247,9 @@ func buildConf(c Config) (*conf.SchedulerConfiguration, *conf.SchedulerParams) {
 	for ti := range sc.Tiers {
 		for pi := range sc.Tiers[ti].Plugins {
 			p := &sc.Tiers[ti].Plugins[pi]
+			if p.Name == "gpupack" && c.GpuSpread {
+				p.Name = "gpuspread"
+			}
 			if p.Name == "nodeplacement" && c.Placement != "" {
 				p.Arguments = map[string]string{"cpu": c.Placement, "gpu": c.Placement}
 			}
